@@ -75,6 +75,12 @@ def enumerate_history(args):
                 # one signature per (violated clause, operation in flight / last acknowledged); the kind of the last file
                 # mutation before the cut is part of the witness
                 sig = "%s/%s" % (clause, ("in-flight:" + inflight) if inflight else ("acked:%s" % last_marker_op))
+                # the listed compaction-pointer defect is identified by its cause, not by where the markers happen to stand (the catalogue
+                # rewrite is fire-and-forget and may land after the acknowledgement or after the next operation has started): the cut lies
+                # after "unlink log_x, create log_x" of the SAME file name and before the next write of the catalogue file, and the
+                # recovered log steps back right after the new pointer
+                if prop == "C04" and clause == "log-not-contiguous" and isinstance(detail, dict) and detail.get("prev", 0) > detail.get("at", 0) and pointer_file_reused_before_catalogue(recs, k):
+                    sig = "log-not-contiguous/pointer-file-reused-before-catalogue-rewrite"
                 key = (prop, sig)
                 if key in seen_sigs:
                     continue
@@ -88,6 +94,23 @@ def enumerate_history(args):
         return res
     finally:
         shutil.rmtree(hwd, ignore_errors=True)
+
+
+
+def pointer_file_reused_before_catalogue(recs, k):
+    """True when journal prefix recs[:k+1] ends inside the window 'unlink f; create f (same name); ... ' with no write of the
+    catalogue file ("index") after the re-creation"""
+    unlinked = set()
+    open_window = None
+    for x in recs[:k + 1]:
+        if x[0] == "U":
+            unlinked.add(x[1])
+        elif x[0] == "C" and x[1] in unlinked and x[1].startswith("log_"):
+            open_window = x[1]
+        elif x[0] == "W" and x[1] == "index":
+            open_window = None
+            unlinked.clear()
+    return open_window is not None
 
 
 def rollover_history(args):
